@@ -131,9 +131,11 @@ class DiffusionModel(GenericModel):
         data = {
             'finalTime': self.t,
             'finalX': self.x,
-            'recordX': self._recordedX,
-            'recordTime': self._recordedTime
         }
+        #Recorded arrays are None if recording was never enabled (None cannot be stored in an npz file)
+        if self._recordedX is not None and self._recordedTime is not None:
+            data['recordX'] = self._recordedX
+            data['recordTime'] = self._recordedTime
         return data
 
     def fromDict(self, data):
@@ -142,8 +144,9 @@ class DiffusionModel(GenericModel):
         '''
         self.t = data['finalTime']
         self.x = data['finalX']
-        self._recordedX = data['recordX']
-        self._recordedTime = data['recordTime']
+        if 'recordX' in data and 'recordTime' in data:
+            self._recordedX = data['recordX']
+            self._recordedTime = data['recordTime']
     
     def setHashSensitivity(self, s):
         '''
